@@ -123,6 +123,7 @@ type TB struct {
 type ufSig struct {
 	args []Sort
 	res  Sort
+	body string // non-empty: a defined (interpreted) function over parameters a0..an-1
 }
 
 func NewTB() *TB {
@@ -1081,6 +1082,15 @@ func (b *TB) App(name string, res Sort, args ...*Term) *Term {
 		return b.Var(name, res)
 	}
 	return b.mk(&Term{op: OApp, sort: res, name: name, args: args})
+}
+
+// Defined applies an interpreted function given by an SMT-LIB body over parameters a0..an-1.
+func (b *TB) Defined(name string, res Sort, body string, args ...*Term) *Term {
+	t := b.App(name, res, args...)
+	sig := b.ufs[name]
+	sig.body = body
+	b.ufs[name] = sig
+	return t
 }
 
 // ---------- printing
